@@ -1,3 +1,272 @@
-/-! Property C18 — theorems (statements live here, helper lemmas in Faithful/Lib) -/
+import Faithful.Lib.FirstSuccessSys
+
+/-! Property C18 — parallel epoch search returns a hit whenever one exists.
+
+All statements are about `FSys.step` / `FSys.run` (the transition system of /repo/first-success.go the driver
+executes), for an arbitrary number of jobs `c.n`, an arbitrary `concurrency` argument `c.limit : Int`, arbitrary
+outcomes `c.out` and EVERY schedule (`Reach c s` = `s` is the end state of some list of atomic actions accepted by
+`run` from the initial state).  Scope: the live-context path only (the property's own restriction); every job
+function eventually returns (a running job's `send` is always enabled — `no_send_blocks` — and a maximal schedule
+is one in which nothing enabled is left).
+-/
 namespace C18
+open FS FSys
+
+variable {V E : Type}
+
+/-- never a success with a value no job produced: whenever main has returned `ok v`, some job `j < n` returned `ok v` -/
+theorem fs_sound (c : Cfg V E) (s : State V E) (v : V) (hr : Reach c s) (hd : s.main = .done (.ok v)) :
+    ∃ j, j < c.n ∧ c.out j = .ok v := by
+  have hi := inv_reach c s hr
+  have hmi : MainP c.n s.next (s.log.map c.out) s.buf s.closed s.main := hi.main_inv
+  rw [hd] at hmi; simp only [MainP] at hmi
+  obtain ⟨_, pre, post, h⟩ := hmi
+  have hmem : Out.ok v ∈ s.log.map c.out := by rw [h]; simp
+  obtain ⟨j, hj, hout⟩ := List.mem_map.mp hmem
+  have : j ∈ List.range s.next := hi.perm.subset (List.mem_append_right _ hj)
+  have hn := hi.next_le
+  exact ⟨j, by have := List.mem_range.mp this; omega, hout⟩
+
+/-- when main has returned an error list, every job has sent: the arrival list is a permutation of all jobs -/
+theorem arrivals_perm_of_err (c : Cfg V E) (s : State V E) (es : List E) (hr : Reach c s)
+    (hd : s.main = .done (.err es)) : s.log.Perm (List.range c.n) ∧ s.log.map c.out = es.map Out.err := by
+  have hi := inv_reach c s hr
+  have hmi : MainP c.n s.next (s.log.map c.out) s.buf s.closed s.main := hi.main_inv
+  rw [hd] at hmi; simp only [MainP] at hmi
+  obtain ⟨hn, h, hl⟩ := hmi
+  have hlen := hi.len
+  have hll : s.log.length = es.length := by
+    have := congrArg List.length h; simpa using this
+  have hrun : s.running = [] := List.length_eq_zero_iff.mp (by omega)
+  have hp := hi.perm
+  rw [hrun, hn] at hp
+  exact ⟨by simpa using hp, h⟩
+
+/-- a hit whenever one exists: whenever main has returned and some job succeeds, the result is `ok` of the value of
+a job that succeeded (no fairness hypothesis needed: main cannot return an error list before all `n` results arrived) -/
+theorem fs_complete (c : Cfg V E) (s : State V E) (r : Res V E) (hr : Reach c s) (hd : s.main = .done r)
+    (hex : ∃ j, j < c.n ∧ isOk (c.out j) = true) :
+    ∃ v j, r = .ok v ∧ j < c.n ∧ c.out j = .ok v := by
+  cases r with
+  | ok v =>
+    obtain ⟨j, hj, ho⟩ := fs_sound c s v hr hd
+    exact ⟨v, j, rfl, hj, ho⟩
+  | err es =>
+    exfalso
+    obtain ⟨hp, h⟩ := arrivals_perm_of_err c s es hr hd
+    obtain ⟨j, hj, hok⟩ := hex
+    have hjl : j ∈ s.log := hp.symm.subset (List.mem_range.mpr hj)
+    have : c.out j ∈ es.map Out.err := by rw [← h]; exact List.mem_map_of_mem hjl
+    obtain ⟨e, _, he⟩ := List.mem_map.mp this
+    rw [← he] at hok; simp [isOk] at hok
+
+/-- otherwise the complete list of errors: if every job fails, main's result is the list of all `n` errors, a
+permutation of `[e 0, …, e (n-1)]`, in arrival order -/
+theorem fs_all_fail (c : Cfg V E) (s : State V E) (r : Res V E) (e : Nat → E) (hr : Reach c s)
+    (hd : s.main = .done r) (hall : ∀ j, j < c.n → c.out j = .err (e j)) :
+    ∃ es, r = .err es ∧ es.Perm ((List.range c.n).map e) ∧ es = errsOf (s.log.map c.out) := by
+  cases r with
+  | ok v =>
+    obtain ⟨j, hj, ho⟩ := fs_sound c s v hr hd
+    rw [hall j hj] at ho; cases ho
+  | err es =>
+    obtain ⟨hp, h⟩ := arrivals_perm_of_err c s es hr hd
+    refine ⟨es, rfl, ?_, by rw [h, errsOf_map_err]⟩
+    have h1 : (errsOf (s.log.map c.out)).Perm (errsOf ((List.range c.n).map c.out)) := errsOf_perm (hp.map c.out)
+    rw [h, errsOf_map_err] at h1
+    have h2 : (List.range c.n).map c.out = ((List.range c.n).map e).map Out.err := by
+      rw [List.map_map]
+      apply List.map_congr_left
+      intro j hj
+      exact hall j (List.mem_range.mp hj)
+    rw [h2, errsOf_map_err] at h1
+    exact h1
+
+/-- the transition system and the collector prototype agree: whatever main returns is `FS.collect` applied to the
+arrival sequence (so `collect_sound / collect_complete / collect_all_fail` speak about every run) -/
+theorem fs_result_eq_collect (c : Cfg V E) (s : State V E) (r : Res V E) (hr : Reach c s) (hd : s.main = .done r) :
+    r.toExcept = collect c.n [] (s.log.map c.out) := by
+  have hi := inv_reach c s hr
+  have hmi : MainP c.n s.next (s.log.map c.out) s.buf s.closed s.main := hi.main_inv
+  have hlen := hi.len
+  have hn := hi.next_le
+  rw [hd] at hmi
+  cases r with
+  | ok v =>
+    simp only [MainP] at hmi
+    obtain ⟨_, pre, post, h⟩ := hmi
+    have hl : (s.log.map c.out).length = pre.length + (post.length + 1) := by rw [h]; simp
+    rw [h, collect_prefix_ok c.n v post pre [] (by simp at hl ⊢; omega)]
+    rfl
+  | err es =>
+    simp only [MainP] at hmi
+    obtain ⟨_, h, hl⟩ := hmi
+    rw [h, collect_all_err c.n es hl]
+    rfl
+
+/-- the channel capacity `len(fns)` suffices: in every reachable state at most `n` results are buffered and the send
+of every running job is enabled (its guard `buf.length < n` holds) -/
+theorem no_send_blocks (c : Cfg V E) (s : State V E) (hr : Reach c s) :
+    s.buf.length ≤ c.n ∧ ∀ j, j ∈ s.running → (step c s (.send j)).isSome = true := by
+  have hi := inv_reach c s hr
+  have hlen := hi.len
+  have hn := hi.next_le
+  have hb := hi.buf_le
+  refine ⟨by omega, ?_⟩
+  intro j hj
+  have : 0 < s.running.length := List.length_pos_of_mem hj
+  have hlt : s.buf.length < c.n := by omega
+  simp [step, hj, hlt]
+
+/-- the concurrency limit: a positive `concurrency` bounds the number of jobs holding a semaphore token (running or
+sent-but-not-yet-released); `concurrency ≤ 0` means no semaphore at all (SetLimit is not called) -/
+theorem fs_limit (c : Cfg V E) (s : State V E) (hr : Reach c s) :
+    (0 < c.limit → (s.running.length + s.sentq.length : Int) ≤ c.limit) ∧ (c.limit ≤ 0 → semCap c = none) := by
+  have hi := inv_reach c s hr
+  constructor
+  · intro hpos
+    have := hi.sem c.limit.toNat (by simp [semCap, hpos])
+    omega
+  · intro h
+    simp [semCap]; omega
+
+/-- termination: every schedule has at most `5n + 3` actions; a schedule that cannot be extended has ended with main
+returned, no goroutine left and the channel closed; and from every reachable state such an end can be reached -/
+theorem fs_terminates (c : Cfg V E) (sched : List Act) (s : State V E) (hrun : run c init sched = some s) :
+    sched.length ≤ 5 * c.n + 3 ∧
+    ((∀ a, step c s a = none) → Final s) ∧
+    ∃ sched' s', run c s sched' = some s' ∧ Final s' := by
+  have hi := inv_reach c s ⟨sched, hrun⟩
+  refine ⟨?_, progress c s hi, can_finish c (mu c s) s (Nat.le_refl _) hi⟩
+  have := run_mu c sched init s hrun
+  rw [mu_init] at this
+  omega
+
+/-- every maximal run: main has returned `collect n [] arrivals`, where the arrivals are a permutation of all jobs -/
+theorem fs_maximal_run (c : Cfg V E) (sched : List Act) (s : State V E) (hrun : run c init sched = some s)
+    (hmax : ∀ a, step c s a = none) :
+    ∃ r, s.main = .done r ∧ r.toExcept = collect c.n [] (s.log.map c.out) ∧ s.log.Perm (List.range c.n) := by
+  have hr : Reach c s := ⟨sched, hrun⟩
+  have hi := inv_reach c s hr
+  obtain ⟨⟨r, hd⟩, hrn, _, _, hc⟩ := progress c s hi hmax
+  refine ⟨r, hd, fs_result_eq_collect c s r hr hd, ?_⟩
+  have hp := hi.perm
+  rw [hrn, (hi.closed_imp hc).1] at hp
+  simpa using hp
+
+/-! ### findEpochNumberFromSignature -/
+open FindEpoch
+
+theorem cfgOf_out (limit : Int) (eps : List (Nat × Kind)) (j : Nat) (hj : j < eps.length) :
+    (cfgOf limit eps).out j = jobOut eps[j].1 eps[j].2 := by
+  simp [cfgOf, List.getElem?_eq_getElem hj]
+
+/-- classification after the search, for every schedule of the search over the epochs `eps`:
+ (1) `found e` only for an epoch whose job hit;
+ (2) if some epoch hits, the answer is `found e` for a hitting epoch;
+ (3) if every job's error is a not-found error, the answer is `notFound`;
+ (4) if no epoch hits and some error is not a not-found error, the answer is `internal es` with `es` the errors of
+     all epochs (a permutation, arrival order). -/
+theorem find_epoch_classification (limit : Int) (eps : List (Nat × Kind)) (s : State Nat JErr) (r : Res Nat JErr)
+    (hr : Reach (cfgOf limit eps) s) (hd : s.main = .done r) :
+    (∀ e, classify r = .found e → (e, Kind.hit) ∈ eps) ∧
+    ((∃ num, (num, Kind.hit) ∈ eps) → ∃ e, classify r = .found e ∧ (e, Kind.hit) ∈ eps) ∧
+    ((∀ j, j < eps.length → ∃ x, (cfgOf limit eps).out j = .err x ∧ x.isNF = true) → classify r = .notFound) ∧
+    (∀ errOf : Nat → JErr, (∀ j, j < eps.length → (cfgOf limit eps).out j = .err (errOf j)) →
+        (∃ j, j < eps.length ∧ (errOf j).isNF = false) →
+        ∃ es, classify r = .internal es ∧ es.Perm ((List.range eps.length).map errOf)) := by
+  have hfound : ∀ e, r = .ok e → (e, Kind.hit) ∈ eps := by
+    intro e he
+    subst he
+    obtain ⟨j, hj, ho⟩ := fs_sound _ s e hr hd
+    have hj' : j < eps.length := hj
+    rw [cfgOf_out limit eps j hj'] at ho
+    have hmem : eps[j] ∈ eps := List.getElem_mem hj'
+    rcases hx : eps[j] with ⟨num, k⟩
+    rw [hx] at ho hmem
+    cases k <;> simp [jobOut] at ho
+    subst ho; exact hmem
+  refine ⟨?_, ?_, ?_, ?_⟩
+  · intro e he
+    cases r with
+    | ok v => simp [classify] at he; subst he; exact hfound v rfl
+    | err es => simp only [classify] at he; split at he <;> cases he
+  · rintro ⟨num, hmem⟩
+    obtain ⟨j, hj, hx⟩ := List.getElem_of_mem hmem
+    have hex : ∃ j, j < (cfgOf limit eps).n ∧ isOk ((cfgOf limit eps).out j) = true :=
+      ⟨j, hj, by rw [cfgOf_out limit eps j hj, hx]; rfl⟩
+    obtain ⟨v, _, hrv, _, _⟩ := fs_complete _ s r hr hd hex
+    exact ⟨v, by rw [hrv]; rfl, hfound v hrv⟩
+  · intro hall
+    cases r with
+    | ok v =>
+      obtain ⟨j, hj, ho⟩ := fs_sound _ s v hr hd
+      obtain ⟨x, hx, _⟩ := hall j hj
+      rw [hx] at ho; cases ho
+    | err es =>
+      obtain ⟨hp, h⟩ := arrivals_perm_of_err _ s es hr hd
+      have : es.all JErr.isNF = true := by
+        rw [List.all_eq_true]
+        intro x hx
+        have hm : Out.err x ∈ s.log.map (cfgOf limit eps).out := by rw [h]; exact List.mem_map_of_mem hx
+        obtain ⟨j, hj, ho⟩ := List.mem_map.mp hm
+        have hjn : j < eps.length := List.mem_range.mp (hp.subset hj)
+        obtain ⟨y, hy, hnf⟩ := hall j hjn
+        rw [hy] at ho; injection ho with ho; subst ho; exact hnf
+      simp [classify, this]
+  · intro errOf hall ⟨j, hj, hnf⟩
+    obtain ⟨es, hres, hperm, _⟩ := fs_all_fail _ s r errOf hr hd hall
+    subst hres
+    refine ⟨es, ?_, hperm⟩
+    have hmem : errOf j ∈ es := hperm.symm.subset (List.mem_map_of_mem (List.mem_range.mpr hj))
+    have : es.all JErr.isNF = false := by
+      rw [List.all_eq_false]
+      exact ⟨errOf j, hmem, by simp [hnf]⟩
+    simp [classify, this]
+
+/-- with exactly one epoch the search is skipped: that epoch is the answer whatever its indexes say -/
+theorem find_single_epoch (num : Nat) (k : Kind) (r : Res Nat JErr) : findResult [(num, k)] r = .found num := rfl
+
+/-- with zero or at least two epochs the answer is the classification of the search result -/
+theorem find_multi_epoch (eps : List (Nat × Kind)) (r : Res Nat JErr) (h : eps.length ≠ 1) :
+    findResult eps r = classify r := by
+  match eps, h with
+  | [], _ => rfl
+  | [_], h => simp at h
+  | _ :: _ :: _, _ => rfl
+
+/-! ### non-vacuity: concrete runs of the very definitions above -/
+
+/-- three jobs (error 1, success 7, error 3), limit 2 -/
+def exCfg : Cfg Nat Nat :=
+  { n := 3, limit := 2, out := fun j => if j = 0 then .err 1 else if j = 1 then .ok 7 else .err 3 }
+
+def exSched : List Act :=
+  [.start, .start, .send 0, .release 0, .start, .send 2, .send 1, .wgdone 0, .fork, .recv, .recv, .recv,
+   .release 1, .release 2, .wgdone 2, .wgdone 1, .close]
+
+-- a complete run under limit 2 in which job 2 overtakes job 1: errors 1 and 3 arrive first, then the success
+example : (run exCfg init exSched).map (·.main) = some (.done (.ok 7)) := by decide
+example : (run exCfg init exSched).map (·.log) = some [0, 2, 1] := by decide
+example : ∃ s, run exCfg init exSched = some s ∧ ∀ a ∈ allActs 3, step exCfg s a = none := by
+  refine ⟨_, rfl, ?_⟩; decide
+-- the limit blocks: a third start is not accepted while two jobs hold a token
+example : run exCfg init [.start, .start, .start] = none := by decide
+-- all jobs fail: the complete error list in arrival order; main returns at the n-th error, before the channel is closed
+def exFail : Cfg Nat Nat := { n := 2, limit := -1, out := fun j => .err (10 + j) }
+example : (run exFail init [.start, .start, .send 1, .send 0, .fork, .recv, .recv]).map (·.main)
+    = some (.done (.err [11, 10])) := by decide
+-- zero jobs: the closer closes the empty channel and main returns the empty error list
+example : (run ({ n := 0, limit := 0, out := fun _ => .err 0 } : Cfg Nat Nat) init [.fork, .close, .recvClosed]).map (·.main)
+    = some (.done (.err [])) := by decide
+-- limit 0 is "no limit": three jobs run at once
+example : (run { exCfg with limit := 0 } init [.start, .start, .start]).map (·.running) = some [0, 1, 2] := by decide
+-- the scheduler used by the driver realises completion order 2,1,0 under limit 2 as 1,2,0 (job 2 starts only after job 1 left)
+example : (prioRun exCfg [2, 1, 0] 19 init [] 0).2.1.log = [1, 2, 0] := by decide
+-- classification: hit in epoch 7; all not found; one failing bucketteer
+example : classify (.ok 7) = .found 7 := rfl
+example : classify (.err [.notFound, .hasFailed 5 true]) = .notFound := rfl
+example : classify (.err [.notFound, .hasFailed 5 false]) = .internal [.notFound, .hasFailed 5 false] := rfl
+example : (cfgOf 2 [(9, .hasFalse), (7, .hit)]).out 1 = .ok 7 := rfl
+
 end C18
